@@ -3,6 +3,7 @@ package actionlint
 import (
 	"fmt"
 	"io"
+	"sort"
 	"time"
 )
 
@@ -64,7 +65,23 @@ func (v *Visitor) Visit(n *Workflow) error {
 		t = time.Now()
 	}
 
+	// Visit jobs in the order of their positions in the source. Jobs is a map and rules (and caches
+	// shared by them) must not observe a different visiting order on every run.
+	jobs := make([]*Job, 0, len(n.Jobs))
 	for _, j := range n.Jobs {
+		jobs = append(jobs, j)
+	}
+	sort.Slice(jobs, func(i, j int) bool {
+		l, r := jobs[i], jobs[j]
+		if l.Pos != nil && r.Pos != nil && *l.Pos != *r.Pos {
+			return l.Pos.IsBefore(r.Pos)
+		}
+		if l.ID != nil && r.ID != nil {
+			return l.ID.Value < r.ID.Value
+		}
+		return false
+	})
+	for _, j := range jobs {
 		if err := v.visitJob(j); err != nil {
 			return err
 		}
